@@ -47,10 +47,12 @@ const (
 	KHookTask = 1
 	KHookCall = 2
 	KPend     = 3
+	KLeave    = 4 // call role started by the leave_<state St> hooks, awaited at a moment that never comes
 )
 
 type Role struct {
 	Kind   int  `json:"k"`
+	St     int  `json:"st,omitempty"`    // KLeave: environment state code (2 CONFIGURED, 3 RUNNING, 4 ERROR)
 	After  bool `json:"after,omitempty"` // after_DESTROY instead of DESTROY
 	W      int  `json:"w,omitempty"`     // hook weight
 	Crit   bool `json:"crit,omitempty"`
@@ -66,17 +68,18 @@ type Spec struct {
 }
 
 type Op struct {
-	K     string `json:"op"` // snap finish create control destroy cleanup kill dies xfail
-	Agent bool   `json:"agent,omitempty"` // xfail: the whole agent of task T fails (else its executor)
-	E     int    `json:"e,omitempty"`
-	Spec  *Spec  `json:"spec,omitempty"`
-	Ev    int    `json:"ev,omitempty"` // 1 CONFIGURE 2 START 3 STOP 4 RESET
-	Fail  bool   `json:"fail,omitempty"`
-	Force bool   `json:"force,omitempty"`
-	Allow bool   `json:"allow,omitempty"`
-	Keep  bool   `json:"keep,omitempty"`
-	Ids   []int  `json:"ids,omitempty"`
-	T     int    `json:"t,omitempty"`
+	K      string `json:"op"`               // snap finish create control destroy cleanup kill dies xfail
+	Agent  bool   `json:"agent,omitempty"`  // xfail: the whole agent of task T fails (else its executor)
+	Reconn bool   `json:"reconn,omitempty"` // recon: drop the event stream first (the core re-subscribes and reconciles)
+	E      int    `json:"e,omitempty"`
+	Spec   *Spec  `json:"spec,omitempty"`
+	Ev     int    `json:"ev,omitempty"` // 1 CONFIGURE 2 START 3 STOP 4 RESET
+	Fail   bool   `json:"fail,omitempty"`
+	Force  bool   `json:"force,omitempty"`
+	Allow  bool   `json:"allow,omitempty"`
+	Keep   bool   `json:"keep,omitempty"`
+	Ids    []int  `json:"ids,omitempty"`
+	T      int    `json:"t,omitempty"`
 }
 
 type History struct {
@@ -140,7 +143,7 @@ type Obs struct {
 }
 
 type Result struct {
-	Obs  []Obs  `json:"obs"`
+	Obs []Obs `json:"obs"`
 	// oracle values read off the run: index of a create/finish request -> 5 when the DEPLOY transition
 	// timed out although the specification lets every task report in (lost status notification)
 	Fail map[int]int `json:"fail,omitempty"`
@@ -149,10 +152,10 @@ type Result struct {
 	// (machine under load): for the model these tasks were still staging
 	Stg map[int][]int `json:"stg,omitempty"`
 	// index of an xfail request -> the tasks that shared the failed executor / agent (read off the roster)
-	Xf map[int][]int `json:"xf,omitempty"`
-	Err    string `json:"err,omitempty"`
-	Hung   bool   `json:"hung,omitempty"`
-	HungOp string `json:"hung_op,omitempty"` // kind of the request that did not return
+	Xf     map[int][]int `json:"xf,omitempty"`
+	Err    string        `json:"err,omitempty"`
+	Hung   bool          `json:"hung,omitempty"`
+	HungOp string        `json:"hung_op,omitempty"` // kind of the request that did not return
 	// a creation gave up on its deploy timeout before the scheduler had even handed the launched tasks
 	// to the roster (machine under heavy load): the run says nothing about the clean-up, it is repeated
 	Slow bool `json:"slow,omitempty"`
@@ -195,6 +198,8 @@ func roleTerm(r Role) string {
 		k = fmt.Sprintf("(RHookCall %s %s)", gen.Bool(r.After), zTerm(r.W))
 	case KPend:
 		k = "RPend"
+	case KLeave:
+		k = fmt.Sprintf("(RLeave %d)", r.St)
 	}
 	return fmt.Sprintf("(mkRole %s %s %d %s)", k, gen.Bool(r.Crit), r.Launch, gen.Bool(r.Cfg))
 }
@@ -227,6 +232,8 @@ func opTerm(o Op) string {
 		return fmt.Sprintf("(ODies %s)", tidTerm(o.T))
 	case "xfail":
 		return fmt.Sprintf("(OFail %s)", tl(o.Ids))
+	case "recon":
+		return "ORecon"
 	}
 	return "OCleanup"
 }
@@ -343,6 +350,9 @@ func workflowYAML(name string, e int, s *Spec, gated bool) string {
 			}
 			fmt.Fprintf(&b, "  - name: \"r%d\"\n    call:\n      func: verif.Probe(\"d%d\")\n      trigger: %s%+d\n      timeout: 3s\n      critical: %v\n",
 				i, tidOf(e, i), trig, r.W, r.Crit)
+		case KLeave:
+			fmt.Fprintf(&b, "  - name: \"r%d\"\n    call:\n      func: verif.Probe(\"l%d\")\n      trigger: leave_%s\n      await: after_EXIT\n      timeout: 3s\n      critical: false\n",
+				i, tidOf(e, i), envStateNames[r.St])
 		case KPend:
 			fmt.Fprintf(&b, "  - name: \"r%d\"\n    call:\n      func: verif.Probe(\"p%d\")\n      trigger: before_CONFIGURE\n      await: after_EXIT\n      timeout: 3s\n      critical: false\n",
 				i, tidOf(e, i))
@@ -420,9 +430,9 @@ type child struct {
 	hist History
 
 	mu       sync.Mutex
-	specs    map[int]*Spec      // env index -> spec
-	envIds   map[int]string     // env index -> environment id
-	envIdx   map[string]int     // environment id -> env index
+	specs    map[int]*Spec  // env index -> spec
+	envIds   map[int]string // env index -> environment id
+	envIdx   map[string]int // environment id -> env index
 	envPtr   map[int]*environment.Environment
 	byTid    map[string]*launched
 	failCmd  map[string]bool // class + "/" + event -> refuse (transient: one request)
@@ -433,7 +443,10 @@ type child struct {
 	pending  map[int]chan createRes // gated creations in flight
 	active   map[int]bool           // task key -> the core processed its TASK_RUNNING (status ACTIVE seen)
 	entered  map[int]bool           // task key -> seen in the roster
+	markers  int
 }
+
+const markerPrefix = "verif-marker-"
 
 type createRes struct {
 	id  string
@@ -492,6 +505,8 @@ func stateCode(s string) int {
 	}
 	return 9
 }
+
+var envStateNames = map[int]string{0: "STANDBY", 1: "DEPLOYED", 2: "CONFIGURED", 3: "RUNNING", 4: "ERROR"}
 
 func envStateCode(s string) int {
 	switch s {
@@ -761,6 +776,9 @@ func (c *child) observe(rc int, pendAfter int) Obs {
 		r := calls[c.seenCall]
 		switch r.Type {
 		case "KILL":
+			if strings.HasPrefix(r.Kill, markerPrefix) {
+				continue
+			}
 			o.Kills = append(o.Kills, c.keyOfTid(r.Kill))
 		case "ACCEPT":
 			for _, ti := range r.Tasks {
@@ -925,6 +943,9 @@ func (c *child) runOp(o Op) Obs {
 		ob.stg = c.notYetActive(o.E, o.Spec, res.err, ob.Launch, ob.Cmds)
 		if res.err != nil {
 			c.mu.Lock()
+			if ep := c.envPtr[o.E]; ep != nil {
+				_, ob.Pend = ep.VerifC06PendingCalls()
+			}
 			for _, k := range ob.Launch {
 				if !c.entered[k] {
 					ob.Note = "late-verdict"
@@ -973,6 +994,9 @@ func (c *child) runOp(o Op) Obs {
 		ob.stg = c.notYetActive(o.E, o.Spec, res.err, ob.Launch, ob.Cmds)
 		if res.err != nil {
 			c.mu.Lock()
+			if ep := c.envPtr[o.E]; ep != nil {
+				_, ob.Pend = ep.VerifC06PendingCalls()
+			}
 			for _, k := range ob.Launch {
 				if !c.entered[k] {
 					ob.Note = "late-verdict"
@@ -1037,6 +1061,42 @@ func (c *child) runOp(o Op) Obs {
 		c.mu.Unlock()
 		_, err := c.s.Rpc.CleanupTasks(c.ctx, &pb.CleanupTasksRequest{TaskIds: ids})
 		return c.observe(rcOf(err), 0)
+	case "recon":
+		// status updates that originate from the master: TASK_RUNNING, reason reconciliation, agent
+		// id but no executor id, for every running roster task (what a real master answers to the
+		// implicit reconciliation of a re-subscription)
+		if o.Reconn {
+			from := len(c.s.CallsSnapshot())
+			c.s.Reconnect()
+			simcore.WaitFor(6*time.Second, func() bool {
+				for _, r := range c.s.CallsSnapshot()[from:] {
+					if r.Type == "RECONCILE" {
+						return true
+					}
+				}
+				return false
+			})
+		}
+		for _, t := range c.s.Taskman.VerifRoster() {
+			if t.Status == "ACTIVE" && t.AgentId != "" && t.ExecutorId != "" {
+				c.s.PushReconciliationUpdate(t.TaskId, t.AgentId, mesos.TASK_RUNNING)
+			}
+		}
+		// barrier: a marker update behind them comes back as a KILL once everything before it was handled
+		c.markers++
+		marker := fmt.Sprintf("%s%d", markerPrefix, c.markers)
+		from := len(c.s.CallsSnapshot())
+		c.s.PushReconciliationUpdate(marker, "verif-agent", mesos.TASK_RUNNING)
+		simcore.WaitFor(6*time.Second, func() bool {
+			for _, r := range c.s.CallsSnapshot()[from:] {
+				if r.Type == "KILL" && r.Kill == marker {
+					return true
+				}
+			}
+			return false
+		})
+		time.Sleep(15 * time.Millisecond) // updateTaskStatus runs in goroutines of its own
+		return c.observe(0, 0)
 	case "xfail":
 		// the executor (or the agent) of task o.T fails: every roster task sharing it is affected
 		var target string
@@ -1169,6 +1229,19 @@ func runChild(workDir string) {
 		return 0
 	}
 	rec.OnStart = func(id string, vars map[string]string) {
+		if strings.HasPrefix(id, "l") || strings.HasPrefix(id, "p") {
+			// a pending-await call starts: remember the environment object (it may be gone from the
+			// listing by the time the request returns, e.g. in the failure tail of a creation)
+			var k int
+			fmt.Sscanf(id[1:], "%d", &k)
+			if eid, err := uid.FromString(vars["environment_id"]); err == nil {
+				if ep, err := c.s.Envman.Environment(eid); err == nil && ep != nil {
+					c.mu.Lock()
+					c.envPtr[k/64] = ep
+					c.mu.Unlock()
+				}
+			}
+		}
 		if strings.HasPrefix(id, "d") {
 			var k int
 			fmt.Sscanf(id, "d%d", &k)
